@@ -764,11 +764,22 @@ def _comment_pipeline(models):
             blocks.append(body)
 
     visit(fn.body)
-    blocks = [b for b in blocks if any(".replace(" in ast.unparse(st) or "endswith(" in ast.unparse(st) for st in b if not any(isinstance(x, (ast.For, ast.While)) for x in ast.walk(st)))]
+    def escapes(st) -> bool:
+        """the statement replaces text itself, or calls a module-level helper that does"""
+        if any(isinstance(x, (ast.For, ast.While)) for x in ast.walk(st)):
+            return False
+        if ".replace(" in ast.unparse(st):
+            return True
+        return any(isinstance(c, ast.Call) and isinstance(c.func, ast.Name) and models.has(c.func.id) and ".replace(" in ast.unparse(models.func(c.func.id)) for c in ast.walk(st))
+
+    blocks = [b for b in blocks if any(escapes(st) for st in b)]
     if not blocks:
         return None
     body = blocks[0]
-    start = next((i for i, st in enumerate(body) if ".replace(" in ast.unparse(st) or "endswith(" in ast.unparse(st)), None)
+    start = next((i for i, st in enumerate(body) if escapes(st)), None)
+    # a quote fix-up placed in front of the replacement belongs to the escaping as well
+    while start is not None and start > 0 and "endswith(" in ast.unparse(body[start - 1]) and not any(isinstance(x, (ast.For, ast.While)) for x in ast.walk(body[start - 1])):
+        start -= 1
     if start is None:
         return None
     tail = body[start:]
